@@ -233,7 +233,6 @@ def strategy():
 def run(args):
     """args: seed, max_examples, tolerated (list of kinds listed as known findings)"""
     import sys
-    sys.path.insert(0, "/repo")
     from hypothesis import given, settings, seed, HealthCheck, Phase
     tolerated = set(args.get("tolerated") or [])
     state = {"examples": 0, "distinct": set(), "fail": None, "known": {}, "classes": {}, "samples": []}
@@ -275,5 +274,4 @@ def run(args):
 
 def replay_case(args):
     import sys
-    sys.path.insert(0, "/repo")
     return {"problems": judge(args["records"])}
